@@ -1689,8 +1689,22 @@ def check_C14(ctx):
                 nm = rng.choice(pool_names)
                 mode = rng.randrange(4)
                 if mode == 0:
-                    ans = s.op(0, 'declare', nm)
+                    # one name, or several with a repeat inside the same call
+                    group = [nm] + [rng.choice(pool_names) for _ in range(rng.randint(0, 2))]
+                    if rng.random() < 0.5:
+                        group.append(rng.choice(group))
+                    before_n = len(before_order)
+                    fresh_names = []
+                    for g_ in group:
+                        if g_ not in before_order and g_ not in fresh_names:
+                            fresh_names.append(g_)
+                    ans = s.op(0, 'declare', ','.join(group))
                     expect_ok = True
+                    if ans.startswith('ok') and dict(b.vars) != {
+                            **before_order, **{g_: before_n + i for i, g_ in enumerate(fresh_names)}}:
+                        ctx.violation('declare with several names (repeats included) gave wrong levels', dict(
+                            lines=list(s.lines), got=dict(b.vars), tags=dict(call='declare-group')))
+                    nm = fresh_names[0] if fresh_names else nm
                 elif mode == 1:
                     ans = s.op(0, 'add_var', nm)
                     expect_ok = True
@@ -1733,8 +1747,20 @@ def check_C14(ctx):
                     req = [rng.choice(names)]
                 else:
                     req = ['nosuch']
+                # views that may be remembered per node (support, count) asked BEFORE the removal ...
+                asked = [u for u in held if abs(u) != 1][:3]
+                supp_before = {u: s.op(0, 'support', u) for u in asked}
+                cnt_before = {u: s.op(0, 'count', u) for u in asked}
                 ans = s.op(0, 'undeclare', ','.join(req)) if req else s.op(0, 'undeclare')
                 ctx.count('undeclare')
+                if ans.startswith('ok'):
+                    # ... and AFTER it: names and counts of a held function do not change
+                    for u in asked:
+                        if s.op(0, 'support', u) != supp_before[u] or s.op(0, 'count', u) != cnt_before[u]:
+                            ctx.violation('support / count of a held reference changed when unused '
+                                          'variables were removed', dict(
+                                              lines=list(s.lines), ref=u, tags=dict(call='undeclare-views')))
+                            break
                 should_fail = any((n not in before_order) or (before_order[n] in used_levels) for n in req)
                 if should_fail == ans.startswith('ok'):
                     ctx.violation('undeclare_vars accepted/refused wrongly', dict(
